@@ -535,6 +535,9 @@ func (i *interpreter) reportPanic(tp targetPanic) {
 // path can be replayed natively (translation validation of the encoder).
 func (i *interpreter) sampleWitness(res *PathResult) {
 	p := i.path
+	if i.crashed {
+		return // a kill -9 in mid-call cannot be replayed natively
+	}
 	if !i.ex.wantWitness(p) {
 		return
 	}
